@@ -174,15 +174,17 @@ class SSimpleQueue:
 
 
 class FakeResponse:
-    def __init__(self, content, fail):
-        self.content = content
+    def __init__(self, content, fail, status=500):
+        self.content = b"" if fail else content
         self.fail = fail
-        self.status_code = 500 if fail else 206
+        self.status_code = status if fail else 206
+        self.ok = not fail
+        self.reason = "injected"
 
     def raise_for_status(self):
         if self.fail:
             import requests
-            raise requests.HTTPError("500 Server Error (injected)")
+            raise requests.HTTPError(f"{self.status_code} Error (injected)")
 
 
 class FakeSession:
@@ -207,7 +209,12 @@ class FakeSession:
             # a failure that is not an OSError (requests' own exceptions are): the connection broke mid-body
             import http.client
             raise http.client.IncompleteRead(b"", b - a + 1)
-        return FakeResponse(self.data[a:b + 1], a in self.fails)
+        status = 500
+        if a in self.fails:
+            kind = self.fail_kind(a)
+            if kind.startswith("http") and kind[4:].isdigit():
+                status = int(kind[4:])        # a refusal with that HTTP status (416, 403, 404, 429, 503 ...)
+        return FakeResponse(self.data[a:b + 1], a in self.fails, status)
 
     def close(self):
         self.closed = True
